@@ -740,7 +740,16 @@ func (c *pathBuilderVisitor) recordFieldPlannedOn(fieldRef int, plannerIdx int) 
 }
 
 func (c *pathBuilderVisitor) hasFieldsWaitingForDependency() bool {
-	return len(c.fieldDependsOn) > 0
+	for fieldKey := range c.fieldDependsOn {
+		// A requirement recorded for a (field, datasource) pair which is no longer selected
+		// (a later node selection run landed the field on another datasource, e.g. because
+		// it became a required key field) will never be planned - it must not keep
+		// the path builder revisiting the operation.
+		if c.nodeSuggestions.IsSelectedOnDataSource(fieldKey.fieldRef, fieldKey.dsHash) {
+			return true
+		}
+	}
+	return false
 }
 
 // addFieldDependencies adds dependencies between planners based on the @requires directive.
